@@ -395,6 +395,54 @@ class FrozenCase(Case):
                 ("dump_validate_roundtrip_equivalent", SB(r["dump_roundtrip_equivalent"]))]
 
 
+class IndexArraysCase(Case):
+    """Index arrays (which estimator / filter / sampler serves which function or variable) follow the same rule as
+    every other per-item array: size one is broadcast, full length is kept, anything else is rejected.  (No solver
+    variable: field x size are enumerated; concrete companion cases.)"""
+
+    family = "config/index-arrays"
+    FIELDS = (("objectives", "function_estimators", 3), ("objectives", "realization_filters", 3),
+              ("nonlinear_constraints", "function_estimators", 2), ("nonlinear_constraints", "realization_filters", 2),
+              ("gradient", "samplers", 4))
+
+    def __init__(self, cid, field, size):
+        self.id, self.field, self.size = cid, field, size
+
+    def describe(self):
+        return f"{self.field[0]}.{self.field[1]} given with {self.size} entries for {self.field[2]} items"
+
+    def inputs(self, env):
+        return {}
+
+    def run(self, env, inp):
+        from ropt.config.enopt import EnOptConfig
+        d = {"variables": {"initial_values": [0.0] * 4}, "objectives": {"weights": [1.0, 2.0, 1.0]},
+             "nonlinear_constraints": {"lower_bounds": [0.0, 0.0], "upper_bounds": [1.0, 1.0]},
+             "realizations": {"weights": [1.0, 1.0]}, "gradient": {},
+             "function_estimators": [{"method": "mean"}, {"method": "stddev"}],
+             "realization_filters": [{"method": "sort-objective", "options": {"sort": [0], "first": 0, "last": 0}},
+                                     {"method": "sort-objective", "options": {"sort": [0], "first": 0, "last": 1}}],
+             "samplers": [{"method": "norm"}, {"method": "uniform"}]}
+        sec, name, n = self.field
+        d[sec][name] = [1] * self.size
+        cfg = EnOptConfig.model_validate(d)
+        arr = getattr(getattr(cfg, sec), name)
+        return {"stored": [int(x) for x in np.asarray(arr).ravel()], "writeable": bool(arr.flags.writeable)}
+
+    def props(self, env, inp, oc):
+        n = self.field[2]
+        if not oc.ok:
+            if isinstance(oc.exc, ValueError):
+                return [("rejected_only_if_not_one_and_not_full_length", SB(self.size not in (1, n)))]
+            return [("no_internal_exception:" + type(oc.exc).__name__, SB(False))]
+        return [("accepted_only_if_one_or_full_length", SB(self.size in (1, n))),
+                ("stored_with_one_entry_per_item", SB(oc.value["stored"] == [1] * n)),
+                ("write_protected", SB(not oc.value["writeable"]))]
+
+    def observe(self, env, inp, oc):
+        return {}
+
+
 def build_cases(tier):
     cases = []
     k = 0
@@ -420,6 +468,9 @@ def build_cases(tier):
     for name in CONFIGS:
         add(FrozenCase, name)
     add(FrozenCase, "scaled", transforms=True)
+    for field in IndexArraysCase.FIELDS:
+        for size in (1, field[2], field[2] - 1 if field[2] > 2 else field[2] + 1):
+            add(IndexArraysCase, field, size)
     return cases
 
 
